@@ -30,7 +30,7 @@ LEVEL_TEXT = ('Generated search with a reference rewriter for the documented sch
 LEVEL_NOTE = 'Trusted: the 60-line reference rewriter (from README). Sampling only.'
 TECHNIQUE = 'Hypothesis grammar-based equation generator + reference rewriter (differential), position-span oracle'
 
-OPS = ['=', '+', '-', '<', '\\le', '\\cdot', '\\times', '/', '\\to', '\\neq', '\\subset', '>']
+OPS = ['=', '+', '-', '<', '\\le', '\\cdot', '\\times', '/', '\\to', '\\neq', '\\subset', '>', ':=', '\\cup']
 OPTXT = {'en': {'+': 'plus', '-': 'minus', '\\cdot': 'times', '\\times': 'times', '/': 'over', None: 'equal'},
          'de': {'+': 'plus', '-': 'minus', '\\cdot': 'mal', '\\times': 'mal', '/': 'durch', None: 'gleich'},
          'ru': {'+': 'плюс', '-': 'минус', '\\cdot': 'раз', '\\times': 'раз', '/': 'на', None: 'равно'}}
